@@ -94,7 +94,20 @@ def main():
     # 3. pinned suite
     if "--skip-suite" not in a:
         log = os.path.join(d, "suite.log")
-        rc, o = sh(f"SUITE_LOG={log} sh /verif/tools/suite.sh {wt}", env=env, timeout=5 * 3600)
+        # SUITE_MODE=lib: only the library's unit tests (6698 of the 9295 pinned tests, one test binary)
+        # plus the integration tests the change's author named as related — used when time does not
+        # allow relinking all 324 test binaries per change; recorded in the result as suite_scope
+        lib_only = os.environ.get("SUITE_MODE") == "lib" or "--lib-suite" in a or os.path.exists("/tmp/mut/LIBSUITE")
+        res["suite_scope"] = "library unit tests + author-named integration tests" if lib_only else "full pinned suite"
+        extra = " --lib" if lib_only else ""
+        if lib_only:
+            named = set(re.findall(r"--test[ =]([A-Za-z0-9_]+)", open(os.path.join(out, "meta.json")).read() if os.path.exists(os.path.join(out, "meta.json")) else ""))
+            named |= set(re.findall(r"`([a-z0-9_]+_test[s]?)`", (open(os.path.join(out, "README.md")).read() if os.path.exists(os.path.join(out, "README.md")) else "")))
+            have = {f[:-3] for f in os.listdir(os.path.join(wt, "oxidize-pdf-core", "tests")) if f.endswith(".rs")}
+            named = sorted(n for n in named if n in have)[:25]
+            extra += "".join(f" --test {n}" for n in named)
+            res["suite_named_tests"] = named
+        rc, o = sh(f"SUITE_LOG={log} sh /verif/tools/suite.sh {wt}{extra}", env=env, timeout=5 * 3600)
         m = re.search(r"STABLE-PASS TESTS FAILING: (\d+)", o)
         failing = [l.split("\t")[1:3] for l in o.splitlines() if l.startswith("RERUN\t")]
         res["suite_first_pass_failing"] = int(m.group(1)) if m else None
